@@ -19,11 +19,8 @@ def run(cmd, cwd=None, timeout=3600):
 
 def coq_make(targets=None, timeout=3000):
     """Full .vo build (never -vos).  Returns (ok, log)."""
-    rc, out, _ = run(["sh", os.path.join(COQ, "mk_project.sh")], cwd=COQ)
-    if rc != 0:
-        return False, out
-    cmd = ["make", "-j", JOBS, "-k"] + (targets or [])
-    rc, out, dt = run(cmd, cwd=COQ, timeout=timeout)
+    os.makedirs(BUILD, exist_ok=True)
+    rc, out, dt = run([os.path.join(VERIF, "coqmake")] + (targets or []), cwd=VERIF, timeout=timeout)
     return rc == 0, out
 
 
